@@ -161,6 +161,11 @@ class ExactModel(torch.nn.Module):
 			k = _prod(o)
 			res.append(y[:, off:off + k].reshape(y.shape[0], *o))
 			off += k
+		if getattr(self, "mixed", False) and len(res) >= 2:
+			# outputs of different dtypes: an integer head first, then a
+			# float head with non-integer values (exact in float64)
+			res[0] = res[0].to(torch.int64)
+			res[1] = res[1] + 0.5
 		if self.ret is not None:
 			return res[self.ret]
 		if self.container == "tensor":
@@ -194,6 +199,22 @@ class Ctx:
 		self.W, self.U = make_weights(self.seed, self.D, self.A, self.L)
 		r = gen.nprng(ID, "X", self.seed, self.A, self.L, self.n)
 		self.idx = r.integers(0, self.A, size=(self.n, self.L))
+		# unknown characters (all-zero columns, index A in the oracle whose
+		# weight tables get an extra all-zero row): every one of the A
+		# substitutions at such a position is a real mutant
+		self.n_unknown = params.get("n_unknown", 0)
+		self.Wmodel, self.Umodel = self.W, self.U
+		if self.n_unknown:
+			for i in range(self.n):
+				for p_ in r.choice(self.L, size=min(self.L, self.n_unknown),
+					replace=False):
+					self.idx[i, p_] = self.A
+			z = numpy.zeros((self.D, 1, self.L), dtype=self.W.dtype)
+			self.W = numpy.concatenate([self.W, z], axis=1)
+			self.U = numpy.concatenate([self.U, z.astype(self.U.dtype)],
+				axis=1)
+		self.mixed = bool(params.get("mixed_dtypes")) and len(
+			self.outs) >= 2 and self.container != "tensor"
 		a = (self.idx[:, None, :] == numpy.arange(self.A)[None, :, None])
 		self.X = torch.from_numpy(a.astype(numpy.int8)).type(
 			DT[params.get("xdtype", "int8")])
@@ -216,8 +237,10 @@ class Ctx:
 		self._cache = {}
 
 	def model(self, ret=None):
-		return ExactModel(self.W, self.U, self.outs, self.container,
+		m = ExactModel(self.Wmodel, self.Umodel, self.outs, self.container,
 			self.n_args, self.with_param, ret=ret)
+		m.mixed = self.mixed
+		return m
 
 	def args_tuple(self, as_list=False):
 		if self.n_args == 0:
@@ -230,6 +253,8 @@ class Ctx:
 			res.append(flat[..., off:off + k].reshape(flat.shape[:-1] + o)
 				.astype(numpy.float64))
 			off += k
+		if self.mixed:
+			res[1] = res[1] + 0.5
 		return res
 
 	def expected(self, start, stop):
@@ -256,7 +281,9 @@ class Ctx:
 			Y = f_np(self.W, self.U, M, zero)
 			yh_na[i, cs, ps - start] = Y
 			yh[i, cs, ps - start] = Y + self.argsum[i][None, :]
-			if numpy.unique(Y, axis=0).shape[0] != Wn * (A - 1) + 1:
+			n_unk = int((s[start:stop] == A).sum())
+			if numpy.unique(Y, axis=0).shape[0] != Wn * (A - 1) + n_unk + (
+				0 if n_unk == Wn else 1):
 				ident = False
 		assert numpy.abs(yh).max() < 2 ** 52
 		e = {"y0": self.split(y0), "yhat": self.split(yh), "yhat_flat": yh,
@@ -635,7 +662,9 @@ def mk(A, L, start, end, kind, c, seed, **extra):
 			r.randint(1, K + 1), stop - start, A, 32]) or 1,
 		"n_args": (c // 2) % 3, "xdtype": ("int8", "float32", "float64")[
 			(c // 3) % 3], "with_param": c % 4 != 3, "args_list": c % 5 == 0,
-		"seed": seed * 1000003 + c, "mode": "raw"}
+		"seed": seed * 1000003 + c, "mode": "raw",
+		"n_unknown": (1 + c % 2) if c % 4 == 1 else 0,
+		"mixed_dtypes": c % 3 == 2}
 	if p["n_args"] and c % 2:
 		p["n"] = 2 + c % 3
 	p.update(extra)
